@@ -409,7 +409,7 @@ func TestC02(t *testing.T) {
 			}
 		}
 	}
-	ev.Rapid(t, rec, "sessions", rec.Scale(4000, 300000), genCase, func(c Case) *ev.Failure {
+	ev.Rapid(t, rec, "sessions", rec.Scale(4000, 2000000), genCase, func(c Case) *ev.Failure {
 		nt, cl := classify(c)
 		rec.Case(ev.Hash(c), nt, cl...)
 		if len(c.Steps) <= 2 {
